@@ -883,6 +883,20 @@ Theorem C03_denoted_scalar_has_independent_reading : forall orc e k j x,
 Proof. exact CodecDecLeaf.denoted_scalar_reading. Qed.
 Print Assumptions C03_denoted_scalar_has_independent_reading.
 
+(* non-vacuity of the denotation theorem: pos_env passes the separation check and the members of ok_tree
+   denote the decoded message *)
+Example C03_example_denoted :
+  CodecDecDenote.denotes_msg no_oracles pos_env
+    [mkProp [114] [2] false false [] (FArray (FScalar KString)); mkProp [99] [5] false true [] (FObject [78])]
+    [([114], JArr [JStr [97]; JStr [98]]); ([99], JObj [([114], JArr [JStr [120]])])]
+    [(2, VList [VStr [97]; VStr [98]]); (5, VMsg [(2, VList [VStr [120]])])].
+Proof.
+  assert (Hs : CodecDecFull.env_sep pos_env) by (apply CodecDecFull.env_separate_sound; vm_compute; reflexivity).
+  eapply (CodecDecDenote.object_body_denoted no_oracles pos_env Hs 20 0).
+  - apply (Hs [78]). left. reflexivity.
+  - vm_compute. reflexivity.
+Qed.
+
 (* LIMITS of C03_full (also in pylib/propcfg/C03.py "partial"):
    - the leaf reading inside [denotes] is the conversion of the one token (scalar_from_go); every such leaf
      has the independent reading leaf_reading (C03_denoted_scalar_has_independent_reading) under the three
